@@ -206,9 +206,10 @@ def cargo_build(variant, timeout=3600):
     if feats:
         cmd += ["--features", ",".join(feats)]
     lock = os.path.join(HARNESS, "Cargo.lock")
-    if not os.path.exists(lock):
+    src_lock = os.path.join(REPO, "Cargo.lock")
+    if not os.path.exists(lock) and os.path.exists(src_lock):
         import shutil
-        shutil.copy(os.path.join(REPO, "Cargo.lock"), lock)
+        shutil.copy(src_lock, lock)
     t0 = time.time()
     rc, out = sh(cmd, cwd=HARNESS, env=env, timeout=timeout)
     return rc, out, time.time() - t0
